@@ -14,6 +14,7 @@ template size_t VPool::pvGetBufferSize() const noexcept;
 template bool VPool::pvIsBufferBytesNear() const noexcept;
 template internal::Byte* VPool::pvNewBlock1();
 template void VPool::pvDeleteBlock1(internal::Byte*) noexcept;
+template void VPool::pvDeleteBlock(void*) noexcept;
 template internal::Byte* VPool::pvGetBlock(internal::Byte*, int8_t) const noexcept;
 template int8_t VPool::pvGetBlockIndex(internal::Byte*, internal::Byte*&) const noexcept;
 template internal::Byte* VPool::pvNewBuffer();
